@@ -71,8 +71,16 @@ def adapt_inline(
     var_names: Dict[Var, str],
     node_name: str,
 ) -> List[onnx.NodeProto]:
-    source_version = max({v for d, v in node.opset_req if d in ("", "ai.onnx")})
     target_version = target_opsets[""]
+    # The version the inlined model was written against (not raised by the internal minimum)
+    source_version = max(
+        {
+            imp.version
+            for imp in node.model.opset_import
+            if imp.domain in ("", "ai.onnx")
+        },
+        default=target_version,
+    )
 
     # convert_version fails if the inlined model does not import the default domain
     seen_domains = {prot.domain for prot in protos}
